@@ -157,6 +157,16 @@ Lexeme == [
   C2 |-> [k |-> "C", name |-> "", attrs |-> <<>>, body |-> <<93, 93>>, src |-> <<60, 33, 91, 67, 68, 65, 84, 65, 91, 93, 93, 93, 93, 62>>, wfok |-> TRUE, free |-> FALSE, defs |-> {}, needs |-> "", feat |-> ""],
   \* <![CDATA[ </a> ]]>
   C3 |-> [k |-> "C", name |-> "", attrs |-> <<>>, body |-> <<32, 60, 47, 97, 62, 32>>, src |-> <<60, 33, 91, 67, 68, 65, 84, 65, 91, 32, 60, 47, 97, 62, 32, 93, 93, 62>>, wfok |-> TRUE, free |-> FALSE, defs |-> {}, needs |-> "", feat |-> ""],
+  \* <![CDATA[a]]]>
+  C4 |-> [k |-> "C", name |-> "", attrs |-> <<>>, body |-> <<97, 93>>, src |-> <<60, 33, 91, 67, 68, 65, 84, 65, 91, 97, 93, 93, 93, 62>>, wfok |-> TRUE, free |-> FALSE, defs |-> {}, needs |-> "", feat |-> ""],
+  \* <![CDATA[]]]>
+  C5 |-> [k |-> "C", name |-> "", attrs |-> <<>>, body |-> <<93>>, src |-> <<60, 33, 91, 67, 68, 65, 84, 65, 91, 93, 93, 93, 62>>, wfok |-> TRUE, free |-> FALSE, defs |-> {}, needs |-> "", feat |-> ""],
+  \* <![CDATA[]>]]>
+  C6 |-> [k |-> "C", name |-> "", attrs |-> <<>>, body |-> <<93, 62>>, src |-> <<60, 33, 91, 67, 68, 65, 84, 65, 91, 93, 62, 93, 93, 62>>, wfok |-> TRUE, free |-> FALSE, defs |-> {}, needs |-> "", feat |-> ""],
+  \* <![CDATA[v[0]]]>
+  C7 |-> [k |-> "C", name |-> "", attrs |-> <<>>, body |-> <<118, 91, 48, 93>>, src |-> <<60, 33, 91, 67, 68, 65, 84, 65, 91, 118, 91, 48, 93, 93, 93, 62>>, wfok |-> TRUE, free |-> FALSE, defs |-> {}, needs |-> "", feat |-> ""],
+  \* <![CDATA[]]]]]>
+  C8 |-> [k |-> "C", name |-> "", attrs |-> <<>>, body |-> <<93, 93, 93>>, src |-> <<60, 33, 91, 67, 68, 65, 84, 65, 91, 93, 93, 93, 93, 93, 62>>, wfok |-> TRUE, free |-> FALSE, defs |-> {}, needs |-> "", feat |-> ""],
   \* <!-- c -->
   K1 |-> [k |-> "K", name |-> "", attrs |-> <<>>, body |-> <<32, 99, 32>>, src |-> <<60, 33, 45, 45, 32, 99, 32, 45, 45, 62>>, wfok |-> TRUE, free |-> FALSE, defs |-> {}, needs |-> "", feat |-> ""],
   \* <!---->
@@ -173,6 +183,10 @@ Lexeme == [
   P2 |-> [k |-> "P", name |-> "p", attrs |-> <<>>, body |-> <<32, 97, 63, 98, 62, 99>>, src |-> <<60, 63, 112, 32, 97, 63, 98, 62, 99, 63, 62>>, wfok |-> TRUE, free |-> FALSE, defs |-> {}, needs |-> "", feat |-> ""],
   \* <?n:t-1 <a> ?>
   P3 |-> [k |-> "P", name |-> "n:t-1", attrs |-> <<>>, body |-> <<32, 60, 97, 62, 32>>, src |-> <<60, 63, 110, 58, 116, 45, 49, 32, 60, 97, 62, 32, 63, 62>>, wfok |-> TRUE, free |-> FALSE, defs |-> {}, needs |-> "", feat |-> ""],
+  \* <?p ??>
+  P4 |-> [k |-> "P", name |-> "p", attrs |-> <<>>, body |-> <<32, 63>>, src |-> <<60, 63, 112, 32, 63, 63, 62>>, wfok |-> TRUE, free |-> FALSE, defs |-> {}, needs |-> "", feat |-> ""],
+  \* <?p a???>
+  P5 |-> [k |-> "P", name |-> "p", attrs |-> <<>>, body |-> <<32, 97, 63, 63>>, src |-> <<60, 63, 112, 32, 97, 63, 63, 63, 62>>, wfok |-> TRUE, free |-> FALSE, defs |-> {}, needs |-> "", feat |-> ""],
   \* <?xml version="1.0"?>
   X1 |-> [k |-> "X", name |-> "xml", attrs |-> <<>>, body |-> <<>>, src |-> <<60, 63, 120, 109, 108, 32, 118, 101, 114, 115, 105, 111, 110, 61, 34, 49, 46, 48, 34, 63, 62>>, wfok |-> TRUE, free |-> FALSE, defs |-> {}, needs |-> "", feat |-> ""],
   \* <?xml version="1.0" encoding="UTF-8" standalone="yes"?>
